@@ -81,6 +81,9 @@ func (g *gen) nilCheck(v Val, pos token.Pos, what string) {
 func (g *gen) instr(b *ssa.BasicBlock, idx int, ins ssa.Instruction) {
 	switch ins := ins.(type) {
 	case *ssa.DebugRef:
+		if g.inl != nil {
+			return // names of an inlined callee's locals must not shadow the caller's in its contract clauses
+		}
 		if obj := ins.Object(); obj != nil {
 			if v, isVar := obj.(*types.Var); isVar && !v.IsField() {
 				if _, known := g.vals[ins.X]; known || isConstLike(ins.X) {
@@ -925,6 +928,11 @@ func (g *gen) ret(ins *ssa.Return) {
 	var rs []Val
 	for _, r := range ins.Results {
 		rs = append(rs, g.val(r))
+	}
+	if g.inl != nil {
+		// return from an inlined callee: remember where, in which state and with what
+		g.inl.rets = append(g.inl.rets, inlineRet{reach: g.curReach, st: g.cur.clone(), vals: rs})
+		return
 	}
 	g.retVals = append(g.retVals, rs)
 	if g.ctr == nil {
